@@ -207,11 +207,11 @@ theorem inv_add (hc : CfgOK cfg G) {w : World} (h : Inv cfg G w) (i : Nat) (e : 
       rw [invalidate_set w i _ hlt]
       exact inv_mutated hc h i inst hi _ _ _ (tabOK_add_new inst e _ ht ho) (uniqueNames_upsert _ _ hu)
     | some old =>
-      have hdet : cfg.overrideDetaches = true := by
+      have hdet : cfg.overrideDetaches = true ∧ cfg.overrideSel = .all := by
         rcases hover with h1 | h1
         · exact h1
         · rw [helts, ho] at h1; cases h1
-      simp only [ho, hdet, if_true] at hok ⊢
+      simp only [ho, hdet.1, hdet.2, DetachSel.pick, if_true] at hok ⊢
       cases hd : detachAll cfg.keepConnectedNode (attachElt inst.tab e) old.nodes old.counted with
       | inl t2 => simp [hd] at hok
       | inr t2 =>
@@ -221,7 +221,7 @@ theorem inv_add (hc : CfgOK cfg G) {w : World} (h : Inv cfg G w) (i : Nat) (e : 
 
 /-- one `_add` that completes keeps table and dictionary consistent and does not touch the memo slots -/
 theorem addRawInst_ok (inst : Inst) (e : Elt) (ht : TabOK inst) (hu : uniqueNames inst.elts)
-    (hadm : cfg.overrideDetaches = true ∨ findElt inst.elts e.name = none)
+    (hadm : (cfg.overrideDetaches = true ∧ cfg.overrideSel = .all) ∨ findElt inst.elts e.name = none)
     (hok : (addRawInst cfg inst e).2 = true) :
     TabOK (addRawInst cfg inst e).1 ∧ uniqueNames (addRawInst cfg inst e).1.elts ∧
     (addRawInst cfg inst e).1.memo = inst.memo ∧ (addRawInst cfg inst e).1.elts = upsert inst.elts e := by
@@ -231,11 +231,11 @@ theorem addRawInst_ok (inst : Inst) (e : Elt) (ht : TabOK inst) (hu : uniqueName
     simp only [ho]
     exact ⟨tabOK_add_new inst e _ ht ho, uniqueNames_upsert _ _ hu, trivial, trivial⟩
   | some old =>
-    have hdet : cfg.overrideDetaches = true := by
+    have hdet : cfg.overrideDetaches = true ∧ cfg.overrideSel = .all := by
       rcases hadm with h1 | h1
       · exact h1
       · rw [ho] at h1; cases h1
-    simp only [ho, hdet, if_true] at hok ⊢
+    simp only [ho, hdet.1, hdet.2, DetachSel.pick, if_true] at hok ⊢
     cases hd : detachAll cfg.keepConnectedNode (attachElt inst.tab e) old.nodes old.counted with
     | inl t2 => simp [hd] at hok
     | inr t2 =>
@@ -243,7 +243,7 @@ theorem addRawInst_ok (inst : Inst) (e : Elt) (ht : TabOK inst) (hu : uniqueName
       exact ⟨tabOK_add_override inst e old t2 _ ht ho _ hd, uniqueNames_upsert _ _ hu, trivial, trivial⟩
 
 theorem addLinesInst_ok (es : List Elt) (inst : Inst) (ht : TabOK inst) (hu : uniqueNames inst.elts)
-    (hadm : cfg.overrideDetaches = true ∨ (uniqueNames es ∧ ∀ e ∈ es, findElt inst.elts e.name = none))
+    (hadm : (cfg.overrideDetaches = true ∧ cfg.overrideSel = .all) ∨ (uniqueNames es ∧ ∀ e ∈ es, findElt inst.elts e.name = none))
     (hok : (addLinesInst cfg inst es).2 = true) :
     TabOK (addLinesInst cfg inst es).1 ∧ uniqueNames (addLinesInst cfg inst es).1.elts ∧
     (addLinesInst cfg inst es).1.memo = inst.memo := by
@@ -255,12 +255,12 @@ theorem addLinesInst_ok (es : List Elt) (inst : Inst) (ht : TabOK inst) (hu : un
     | false => simp [h1] at hok
     | true =>
       simp only [h1, if_true] at hok ⊢
-      have hadm1 : cfg.overrideDetaches = true ∨ findElt inst.elts e.name = none := by
+      have hadm1 : (cfg.overrideDetaches = true ∧ cfg.overrideSel = .all) ∨ findElt inst.elts e.name = none := by
         rcases hadm with h | h
         · exact Or.inl h
         · exact Or.inr (h.2 e (List.mem_cons_self ..))
       obtain ⟨ht1, hu1, hm1, he1⟩ := addRawInst_ok (cfg := cfg) inst e ht hu hadm1 h1
-      have hadm2 : cfg.overrideDetaches = true ∨ (uniqueNames es ∧ ∀ x ∈ es, findElt (addRawInst cfg inst e).1.elts x.name = none) := by
+      have hadm2 : (cfg.overrideDetaches = true ∧ cfg.overrideSel = .all) ∨ (uniqueNames es ∧ ∀ x ∈ es, findElt (addRawInst cfg inst e).1.elts x.name = none) := by
         rcases hadm with h | h
         · exact Or.inl h
         · refine Or.inr ⟨h.1.2, ?_⟩
@@ -300,7 +300,8 @@ theorem inv_addLines (hc : CfgOK cfg G) {w : World} (h : Inv cfg G w) (i : Nat) 
 theorem inv_remove (hc : CfgOK cfg G) {w : World} (h : Inv cfg G w) (i : Nat) (nm : String)
     (hadm : (Op.remove i nm).admissible cfg w) (hok : (remove cfg w i nm).2 = true) :
     Inv cfg G (remove cfg w i nm).1 := by
-  have hinv : cfg.removeInvalidates = true := hadm
+  have hinv : cfg.removeInvalidates = true := hadm.1
+  have hsel : cfg.removeSel = .all := hadm.2
   unfold remove at hok ⊢
   cases hi : w.insts[i]? with
   | none => simp [hi] at hok
@@ -317,7 +318,7 @@ theorem inv_remove (hc : CfgOK cfg G) {w : World} (h : Inv cfg G w) (i : Nat) (n
       have hinvd : invalidate cfg w i = { insts := w.insts.set i { inst with memo := clearMemos cfg inst.memo },
                                           lru := clearLru cfg w.lru, clock := w.clock } := by
         simp [invalidate, hi]
-      simp only [ho, hinv, if_true, hinvd, List.getElem?_set, hlt] at hok ⊢
+      simp only [ho, hinv, hsel, DetachSel.pick, if_true, hinvd, List.getElem?_set, hlt] at hok ⊢
       cases hd : detachAll cfg.keepConnectedNode inst.tab e.nodes e.counted with
       | inl t2 => simp [hd] at hok
       | inr t2 =>
@@ -511,6 +512,108 @@ theorem readSlots_spec (hc : CfgOK cfg G) (ds : List String) {w : World} (h : In
         obtain ⟨m, hm, hv, hcl⟩ := hsome hk (hG d (List.mem_cons_self ..))
         simp [hm, hv, hcl]
 
+
+/-! ### a query that mutates cached objects -/
+
+theorem dirty_slot (ds : List String) (m : Memo) : (dirty ds m).slot = m.slot := by
+  unfold dirty; split <;> rfl
+
+theorem dirty_good {ds : List String} (hd : ∀ d ∈ ds, G d = false) {E : Ver} {m : Memo} (hg : GoodMemo G E m) :
+    GoodMemo G E (dirty ds m) := by
+  intro hG
+  rw [dirty_slot] at hG
+  unfold dirty
+  split
+  · rename_i hc
+    have : m.slot ∈ ds := by simpa using hc
+    rw [hd _ this] at hG; cases hG
+  · exact hg hG
+
+theorem damagedBy_nodamage (hc : CfgOK cfg G) (q : String) : ∀ d ∈ cfg.damagedBy q, G d = false := by
+  intro d hd
+  simp only [Config.damagedBy, List.mem_map, List.mem_filter] at hd
+  obtain ⟨p, ⟨hp, _⟩, rfl⟩ := hd
+  exact hc.nodamage p hp
+
+theorem damage_length (w : World) (i : Nat) (q : String) : (damage cfg w i q).insts.length = w.insts.length := by
+  unfold damage
+  cases hi : w.insts[i]? with
+  | none => rfl
+  | some inst => simp
+
+theorem damage_abs (w : World) (i : Nat) (q : String) (j : Nat) :
+    ((damage cfg w i q).insts[j]?).map (fun x : Inst => (x.elts, x.tab)) = (w.insts[j]?).map (fun x : Inst => (x.elts, x.tab)) := by
+  unfold damage
+  cases hi : w.insts[i]? with
+  | none => rfl
+  | some inst =>
+    simp only [List.getElem?_set]
+    by_cases hij : i = j
+    · subst hij
+      by_cases hlt : i < w.insts.length
+      · have hge : w.insts[i] = inst := by
+          have := List.getElem?_eq_getElem hlt; rw [hi] at this; exact (Option.some.inj this).symm
+        simp [hlt, hi, hge]
+      · simp [hlt]
+    · simp [hij]
+
+theorem inv_damage (hc : CfgOK cfg G) {w : World} (h : Inv cfg G w) (i : Nat) (q : String) :
+    Inv cfg G (damage cfg w i q) := by
+  unfold damage
+  cases hi : w.insts[i]? with
+  | none => exact h
+  | some inst =>
+    have hlt : i < w.insts.length := by
+      rcases Nat.lt_or_ge i w.insts.length with h1 | h1
+      · exact h1
+      · rw [List.getElem?_eq_none h1] at hi; cases hi
+    have hnd := damagedBy_nodamage hc q
+    refine ⟨?_, ?_, ?_⟩
+    · intro j instj hj
+      simp only [List.getElem?_set] at hj
+      by_cases hij : i = j
+      · subst hij; simp [hlt] at hj; subst hj; exact h.tab i inst hi
+      · simp [hij] at hj; exact h.tab j instj hj
+    · intro j instj hj
+      simp only [List.getElem?_set] at hj
+      by_cases hij : i = j
+      · subst hij; simp [hlt] at hj; subst hj
+        intro m hm
+        simp only [List.mem_map] at hm
+        obtain ⟨m0, hm0, rfl⟩ := hm
+        obtain ⟨hk, hg⟩ := h.memo i inst hi m0 hm0
+        exact ⟨by rw [dirty_slot]; exact hk, dirty_good hnd hg⟩
+      · simp [hij] at hj; exact h.memo j instj hj
+    · intro p hp
+      simp only [List.mem_map] at hp
+      obtain ⟨p0, hp0, rfl⟩ := hp
+      obtain ⟨h1, h2, h3⟩ := h.lru p0 hp0
+      by_cases hpi : p0.1 = i
+      · simp only [hpi, if_true]
+        refine ⟨by rw [dirty_slot]; exact h1, by simpa [hpi] using hlt, ?_⟩
+        intro instj hj
+        simp [List.getElem?_set, hlt] at hj; subst hj
+        exact dirty_good hnd (h3 inst (hpi ▸ hi))
+      · simp only [hpi, if_false]
+        refine ⟨h1, by simpa using h2, ?_⟩
+        intro instj hj
+        simp only [List.getElem?_set] at hj
+        have : ¬ i = p0.1 := fun e => hpi e.symm
+        simp [this] at hj
+        exact h3 instj hj
+
+/-- `query` = `readSlots` followed by the damage: invariant, shape and provenance -/
+theorem query_spec (hc : CfgOK cfg G) {w : World} (h : Inv cfg G w) (i : Nat) (q : String) :
+    Inv cfg G (query cfg w i q).1 ∧
+    (query cfg w i q).1.insts.length = w.insts.length ∧
+    (∀ j : Nat, ((query cfg w i q).1.insts[j]?).map (fun x : Inst => (x.elts, x.tab)) = (w.insts[j]?).map (fun x : Inst => (x.elts, x.tab))) ∧
+    (∀ inst, w.insts[i]? = some inst → (∀ d ∈ cfg.readsOf q, G d = true) →
+      (query cfg w i q).2 = canonProv cfg inst.elts (cfg.readsOf q)) := by
+  obtain ⟨h1, h2, h3, h4⟩ := readSlots_spec hc (cfg.readsOf q) h i
+  refine ⟨inv_damage hc h1 i q, ?_, ?_, h4⟩
+  · simp only [query]; rw [damage_length, h2]
+  · intro j; simp only [query]; rw [damage_abs, h3]
+
 theorem upsert_new_eq (E : List Elt) (e : Elt) (h : findElt E e.name = none) : upsert E e = E ++ [e] := by
   induction E with
   | nil => rfl
@@ -566,7 +669,7 @@ theorem inv_addRaw_fold (es : List Elt) {w : World} (h : Inv cfg G w) (j : Nat) 
 theorem inv_derive (hc : CfgOK cfg G) {w : World} (h : Inv cfg G w) (i : Nat) (pre : String) (es : List Elt)
     (hu : uniqueNames es) : Inv cfg G (derive cfg w i pre es) := by
   unfold derive
-  obtain ⟨h1, _, _, _⟩ := readSlots_spec hc (cfg.readsOf pre) h i
+  obtain ⟨h1, _, _, _⟩ := query_spec hc h i pre
   have h2 := inv_newInst (cfg := cfg) h1
   have hj : (newInst cfg (query cfg w i pre).1).insts[(query cfg w i pre).1.insts.length]? = some ⟨[], [], []⟩ := by
     simp [newInst]
@@ -589,8 +692,9 @@ theorem inv_step (hc : CfgOK cfg G) {w : World} (h : Inv cfg G w) (op : Op)
   | addRaw i e => exact absurd hadm (by simp [Op.admissible])
   | addLines i es => exact inv_addLines hc hclk i es hadm hok
   | remove i nm => exact inv_remove hc hclk i nm hadm hok
-  | query i q => exact (readSlots_spec hc (cfg.readsOf q) hclk i).1
+  | query i q => exact (query_spec hc hclk i q).1
   | derive i pre es => exact inv_derive hc hclk i pre es hadm
+  | addFail i es e late => simp [step, addFail] at hok; cases hw : w.insts[i]? <;> simp [hw] at hok
 
 theorem inv_run (hc : CfgOK cfg G) (ops : List Op) {w : World} (h : Inv cfg G w) (hr : RunOK cfg w ops) :
     Inv cfg G (run cfg w ops) := by
